@@ -1,5 +1,6 @@
 // ---------------------------------------------------------------------------------------------
-// TRUSTED: message signing as uninterpreted functions with the standard axiom.
+// TRUSTED: message signing (lightning::util::message_signing: zbase32 recoverable ECDSA over the
+// Lightning message prefix) as uninterpreted functions with the standard axiom.
 // ---------------------------------------------------------------------------------------------
 pub uninterp spec fn recover_spec(msg: Seq<u8>, sig: Seq<char>) -> Option<PublicKey>;
 pub uninterp spec fn sign_spec(msg: Seq<u8>, sk: SecretKey) -> Seq<char>;
@@ -9,7 +10,8 @@ pub broadcast proof fn axiom_sign_recover(msg: Seq<u8>, sk: SecretKey)
 { admit(); }
 #[derive(Debug)]
 pub struct Secp256k1Error;
-pub mod cryptography {
+pub use Secp256k1Error as Error;
+pub mod message_signing {
     use super::*;
     #[verifier::external_body]
     pub fn recover_pk(msg: &[u8], sig: &str) -> (r: Result<PublicKey, Secp256k1Error>)
